@@ -6,8 +6,9 @@ import warnings
 import vlib
 from vlib import Finding
 
-LEAN_MODULES = ["FeedVerif.Props.C18", "FeedVerif.Model.OptionsDriver"]
-CORR_OBLIGATIONS = ["M-api.resolveOpts ~ observed effective options of parse() over the whole 27 x 8 x 2 grid",
+LEAN_MODULES = ["FeedVerif.Props.C18", "FeedVerif.Model.OptionsDriver", "FeedVerif.Model.MixinDriver"]
+CORR_OBLIGATIONS = ["M-mixin (stage 2) ~ the real pop() on title and the text-construct elements: content type, value and *_detail after the guess / resolver / sanitizer steps, whose answers (and the per-call options) are passed to the model as parameters",
+                    "M-api.resolveOpts ~ observed effective options of parse() over the whole 27 x 8 x 2 grid",
                     "M-api.postMarkup ~ which of resolve_relative_uris / sanitize_html pop() calls, in which order",
                     "call pairs: the second call's effective options do not depend on the first call"]
 TRUSTED = ["Lean model FeedVerif/Model/Options.lean of api.py:251-259 and mixin.py:568-587 (the two markup transformers are parameters)"]
@@ -153,8 +154,10 @@ def correspondence(ctx):
         dist["pairs"] += 1
     got = vlib.run_driver(lines)
     dis = [{"input": m, "line": l, "model": g, "impl": e} for g, e, m, l in zip(got, exp, meta, lines) if g != e][:20]
-    return {"cases": len(lines), "distinct": len(set(zip(lines, map(str, meta)))), "unmodelled": 0, "disagreements": dis,
+    res = {"cases": len(lines), "distinct": len(set(zip(lines, map(str, meta)))), "unmodelled": 0, "disagreements": dis,
             "distribution": dist, "samples": [{"line": lines[0], "impl": exp[0]}, {"line": lines[1], "impl": exp[1]}]}
+    import mixlib
+    return mixlib.content_corr(ctx, ctx.n(120, 1500), into=res)
 
 
 def check_config(docname, args, flags, ad, first=None):
